@@ -27,6 +27,9 @@ THEOREMS = [
     "HedVerif.C13.bad_prefix",
     "HedVerif.C13.bad_prefix_nonalpha",
     "HedVerif.C13.member_prefix_alpha",
+    "HedVerif.C13.loaded_prefix_no_issue",
+    "HedVerif.C13.tag_prefix_check",
+    "HedVerif.C13.loaded_prefix_tag_clean",
     "HedVerif.C13.set_prefix_refuses",
     "HedVerif.C13.prefixed_partial",
     "HedVerif.C13.required_union_counterexample",
@@ -313,6 +316,19 @@ def model_members(ctx, members, with_attrs=True):
     return out
 
 
+def alpha_data(strings):
+    """`str.isalpha` per non-ASCII character of the alphabet in use, computed by CPython (the Lean model has no Unicode
+    tables: the character class is data, as C01's non-ASCII classes are)"""
+    return sorted({ord(c) for s in strings for c in s if ord(c) > 127 and c.isalpha()})
+
+
+# non-ASCII alphabetic prefixes (Latin-1, Cyrillic, sharp s): legal wherever `str.isalpha` says so; only used in groups
+# whose members are all of the 8.3.0 generation (before 8.3.0 every non-ASCII character in the text is CHARACTER_INVALID)
+UNICODE_GROUPS_QUICK = [[("", "8.3.0"), ("\u00e9:", "score_2.0.0")]]
+UNICODE_GROUPS_MORE = [[("\u0416:", "8.3.0"), ("stra\u00dfe:", "score_2.0.0")],
+                       [("\u00f1u:", "score_2.0.0"), ("", "8.3.0"), ("\u0436\u00e9:", "8.3.0")]]
+
+
 def canon_find(m):
     """model answer in the shape of c03.impl_find"""
     m = dict(m)
@@ -382,13 +398,17 @@ def run_group(ctx, members, n_ann, hed):
     # tag resolution: model vs implementation, in the group
     texts = list(find_cases)
     bad = []
-    for p in ["zz:", "s1:", ":", "sc1:", "Tl:"] + ([""] if "" not in prefixes else []):
+    # non-ASCII candidates only where the whole text is judged by the 8.3.0 character rules (before 8.3.0 any non-ASCII
+    # character stops validation in the string phase as CHARACTER_INVALID)
+    uni = ["\u00e91:", "\u00f1_:", "e\u0301:", "\u0436:"] if group.schema_83_props and all(
+        sch.schema_83_props for sch in group._schemas.values()) else []
+    for p in ["zz:", "s1:", ":", "sc1:", "Tl:"] + uni + ([""] if "" not in prefixes else []):
         if p in prefixes:
             continue
         for _ in range(6):
             V = member_vocab(ctx, ctx.rng.choice(members)[1])
             bad.append(p + gen_tag(ctx.rng, V)[0])
-    reqs = [{"op": "c13.find", "members": mm, "texts": texts + bad},
+    reqs = [{"op": "c13.find", "members": mm, "texts": texts + bad, "alpha": alpha_data(texts + bad)},
             {"op": "c13.attrs", "members": mm, "annotations": [a[0] for a in attr_cases]}]
     ans = ctx.model.batch(reqs)
     if not ans[0]["wellformed"]:
@@ -633,7 +653,7 @@ def run_group_validate(ctx, members, n_each, hed):
         for t, ph, structured in texts:
             tp = prefix_tags(t, p)
             if rng.random() < 0.08:           # one tag under a prefix that is not loaded
-                tp = tp.replace(p, rng.choice(["zz:", "Q1:", p.upper() if p.upper() != p else "yy:"]), 1) if p else "zz:" + tp
+                tp = tp.replace(p, rng.choice(["zz:", "Q1:", p.upper() if p.isascii() and p.upper() != p else "yy:"]), 1) if p else "zz:" + tp
             cases.append((p, name, t, tp, ph, structured))
     chars = sorted({c for c5 in cases for c in c5[3] if ord(c) > 127})
     if [c for c in chars if c.casefold() != c or c.isdigit()]:
@@ -702,7 +722,9 @@ GV_GROUPS = [
     [("tl:", "testlib_3.0.0"), ("", "8.3.0")],
     [("a:", "8.3.0"), ("sc:", "score_1.1.0"), ("tl:", "testlib_2.0.0")],
     [("sc:", "score_2.0.0"), ("", "testlib_3.0.0")],
+    [("\u0436:", "8.3.0"), ("\u00f1u:", "score_2.0.0")],
 ]
+GV_UNICODE_QUICK = [("", "8.3.0"), ("\u00e9:", "score_2.0.0")]
 
 
 # ------------------------------------------------------------------------------------ version lists
@@ -1149,13 +1171,19 @@ def synthetic_sections(ctx, from_string, load_schema_version):
     ctx.check_time()
 
 
-def run_prefix_syntax(ctx, load_schema_version):
+def run_prefix_syntax(ctx, hed):
+    """load side (`set_schema_prefix`) and tag side (`_check_invalid_prefix_issues`) against the model's one alphabetic
+    test, and against each other: a prefix is accepted at load exactly when `str.isalpha` holds of its body, and a prefix
+    that loads is never reported on a tag carrying it"""
+    HedString, HedTag, load_schema_version, GroupValidator = hed
     from hed.errors.exceptions import HedFileError
-    pres = ["sc", "sc:", "s1", "s1:", "", ":", "a-b", "Ab", "abc:", "a b", "x_", "1", "é"]
-    ans = ctx.model.batch([{"op": "c13.prefix", "ns": p} for p in pres if p.isascii()])
-    s = load_schema_version("8.0.0")
+    from hed.validator.util.char_util import CharValidator
     import copy
-    for p, m in zip([p for p in pres if p.isascii()], ans):
+    pres = ["sc", "sc:", "s1", "s1:", "", ":", "a-b", "Ab", "abc:", "a b", "x_", "1", "\u00e9", "\u00f1u:", "\u0416", "stra\u00dfe",
+            "\u0436\u00e9:", "\u00e91", "\u00f1_:", "e\u0301", "\u0301:", "\u00aa", "\u4e2d", "\u00e9 :", "\u01c5"]
+    ans = ctx.model.batch([{"op": "c13.prefix", "ns": p, "alpha": alpha_data([p])} for p in pres])
+    s = load_schema_version("8.3.0")
+    for p, m in zip(pres, ans):
         sc = copy.copy(s)
         try:
             sc.set_schema_prefix(p)
@@ -1163,8 +1191,23 @@ def run_prefix_syntax(ctx, load_schema_version):
         except HedFileError:
             r = "INVALID_LIBRARY_PREFIX"
         ctx.case(("prefix", p), nontrivial=True)
+        ctx.count("prefix-syntax:" + ("refused" if r == "INVALID_LIBRARY_PREFIX" else "accepted") + (":non-ascii" if not p.isascii() else ""))
         if m["set"] != r:
             ctx.disagree("setPrefix = set_schema_prefix", {"prefix": p}, m, r)
+        body = p[:-1] if p.endswith(":") else p
+        if p and (r != "INVALID_LIBRARY_PREFIX") != body.isalpha():
+            ctx.violation("prefix-accepted-at-load-iff-alphabetic", {"prefix": p}, r)
+        # tag side on the same namespace text
+        ns = p if p.endswith(":") else p + ":"
+        if "/" in ns or not p:
+            continue
+        tag = HedTag(ns + "Red", sc if r != "INVALID_LIBRARY_PREFIX" else s)
+        flagged = bool(CharValidator._check_invalid_prefix_issues(tag))
+        m2 = ctx.model.batch([{"op": "c13.prefix", "ns": tag.schema_namespace, "alpha": alpha_data([ns])}])[0] if tag.schema_namespace else {"issue": False}
+        if m2["issue"] != flagged:
+            ctx.disagree("prefixIssue = _check_invalid_prefix_issues", {"prefix": ns, "text": ns + "Red"}, m2["issue"], flagged)
+        if r != "INVALID_LIBRARY_PREFIX" and tag.schema_namespace == r and flagged:
+            ctx.violation("loaded-prefix-reported-on-its-own-tag", {"prefix": ns, "text": ns + "Red"}, "TAG_NAMESPACE_PREFIX_INVALID")
 
 
 # ------------------------------------------------------------------------------------ entry points
@@ -1191,7 +1234,7 @@ def run(ctx):
     tmp = tempfile.mkdtemp(prefix="hv_c13_")
     try:
         run_versions(ctx)
-        run_prefix_syntax(ctx, hed[2])
+        run_prefix_syntax(ctx, hed)
         run_refusals(ctx, hed[2])
         run_load_matrix(ctx, hed[2])
         run_merge(ctx, hed, from_string, tmp)
@@ -1202,10 +1245,13 @@ def run(ctx):
         capitalisation_probe(ctx, hed)
         generation_probe(ctx, hed)
         groups = QUICK_GROUPS + (MORE_GROUPS if not ctx.quick() else MORE_GROUPS[:1])
+        run_group_validate(ctx, GV_UNICODE_QUICK, (120 if ctx.quick() else 1000), hed)
         for k, members in enumerate(GV_GROUPS):
             if ctx.quick() and k >= 3 + (ctx.seed % 2):
                 break
             run_group_validate(ctx, members, (200 if ctx.quick() else 1500), hed)
+        for members in UNICODE_GROUPS_QUICK + ([] if ctx.quick() else UNICODE_GROUPS_MORE):
+            run_group(ctx, members, (300 if ctx.quick() else 1500) // len(members), hed)
         for members in groups:
             full = members in QUICK_GROUPS
             if ctx.quick():
@@ -1223,6 +1269,25 @@ def replay(ctx, rec):
     case = rec.get("case") or (rec.get("disagreements") or [{}])[0].get("case")
     if not case:
         print("nothing to replay (obligation-only record):", rec.get("broken_obligations"))
+        return
+    if "prefix" in case and "group" not in case and "items" not in case:
+        from hed.validator.util.char_util import CharValidator
+        import copy
+        ns = case["prefix"] if case["prefix"].endswith(":") else case["prefix"] + ":"
+        sc = copy.copy(load_schema_version("8.3.0"))
+        try:
+            sc.set_schema_prefix(ns)
+            loaded = True
+        except Exception as e:
+            loaded = False
+        tag = HedTag(ns + "Red", sc if loaded else load_schema_version("8.3.0"))
+        flagged = bool(CharValidator._check_invalid_prefix_issues(tag))
+        m = ctx.model.batch([{"op": "c13.prefix", "ns": ns, "alpha": alpha_data([ns])}])[0]
+        print("prefix:", ns, "loads:", loaded, "flagged on its tag:", flagged, "model:", m)
+        if (m["set"] != "INVALID_LIBRARY_PREFIX") != loaded or m["issue"] != flagged:
+            ctx.disagree("setPrefix/prefixIssue = set_schema_prefix/_check_invalid_prefix_issues", case, m, [loaded, flagged])
+        if loaded and flagged:
+            ctx.violation("loaded-prefix-reported-on-its-own-tag", case, "TAG_NAMESPACE_PREFIX_INVALID")
         return
     if "gv_group" in case:
         from harness.props import c01
@@ -1271,7 +1336,8 @@ def replay(ctx, rec):
     if "group" in case and "text" in case:
         members = [tuple(x) for x in case["group"]]
         group = load_group(load_schema_version, members)
-        m = ctx.model.batch([{"op": "c13.find", "members": model_members(ctx, members), "texts": [case["text"]]}])[0]["results"][0]
+        m = ctx.model.batch([{"op": "c13.find", "members": model_members(ctx, members), "texts": [case["text"]],
+                              "alpha": alpha_data([case["text"]])}])[0]["results"][0]
         r = impl_find(HedTag, group, case["text"])
         print("model:", json.dumps(canon_find(m)), "\nimpl: ", json.dumps(r), "\ncodes:", codes_of(HedString, case["text"], group))
         if canon_find(m) != r:
